@@ -39,6 +39,7 @@ def h_tags(m, ctx, name_lens, cont_lens, line_lens, le, order='permute', second_
     spec = TagSpec()
     lebytes = tuple(le)
     data = {'op': 'tags', 'le': list(lebytes), 'ops': []}
+    ctx.notes['data'] = data          # a panic on this path is reported with the operations performed so far
     req = ['tags', list(lebytes)]
     exp = []
     for i, (nl, cl) in enumerate(zip(name_lens, cont_lens)):
